@@ -663,6 +663,23 @@ int main(void) {
 			if (rc == KSI_OK) { KSI_AsyncHandle_setRequestCtx(h, (void *)(size_t)(tag + 1), NULL); rc = KSI_AsyncService_addRequest(as, h); }
 			if (rc == KSI_OK) { held[tag] = h; KSI_AsyncHandle_getRequestId(h, &id); } else KSI_AsyncHandle_free(h);
 			printf("R add tag=%ld rc=0x%x id=%llu\n", tag, rc, (unsigned long long)id);
+		} else if (!strcmp(tok[0], "ADDCONF")) {
+			/* ADDCONF <tag>: a configuration request (an aggregation / extend request carrying only an empty config payload) */
+			long tag = atol(tok[1]); KSI_AsyncHandle *h = NULL; KSI_Config *cfg = NULL; int rc;
+			rc = KSI_Config_new(ctx, &cfg);
+			if (rc == KSI_OK && extending) { KSI_ExtendReq *rq = NULL; rc = KSI_ExtendReq_new(ctx, &rq);
+				if (rc == KSI_OK) { rc = KSI_ExtendReq_setConfig(rq, cfg); if (rc == KSI_OK) cfg = NULL; }
+				if (rc == KSI_OK) rc = KSI_AsyncExtendHandle_new(ctx, rq, &h);
+				if (rc != KSI_OK) KSI_ExtendReq_free(rq);
+			} else if (rc == KSI_OK) { KSI_AggregationReq *rq = NULL; rc = KSI_AggregationReq_new(ctx, &rq);
+				if (rc == KSI_OK) { rc = KSI_AggregationReq_setConfig(rq, cfg); if (rc == KSI_OK) cfg = NULL; }
+				if (rc == KSI_OK) rc = KSI_AsyncAggregationHandle_new(ctx, rq, &h);
+				if (rc != KSI_OK) KSI_AggregationReq_free(rq);
+			}
+			KSI_Config_free(cfg);
+			if (rc == KSI_OK) { KSI_AsyncHandle_setRequestCtx(h, (void *)(size_t)(tag + 1), NULL); rc = KSI_AsyncService_addRequest(as, h); }
+			if (rc == KSI_OK && tag >= 0 && tag < MAXH) held[tag] = h; else KSI_AsyncHandle_free(h);
+			printf("R addconf tag=%ld rc=0x%x\n", tag, rc);
 		} else if (!strcmp(tok[0], "READD")) {
 			/* READD <tag>: the handle a RUNKEEP returned for <tag> is submitted again (handles may be reused; the request gets a new id) */
 			long tag = atol(tok[1]); int rc = KSI_INVALID_ARGUMENT; KSI_uint64_t id = 0;
@@ -674,6 +691,7 @@ int main(void) {
 			KSI_AsyncService_getPendingCount(as, &pending); KSI_AsyncService_getReceivedCount(as, &received);
 			printf("R run rc=0x%x waiting=%zu pending=%zu received=%zu", rc, waiting, pending, received);
 			if (h != NULL) { const void *tag = NULL; int st = -1; print_handle(h); KSI_AsyncHandle_getState(h, &st); KSI_AsyncHandle_getRequestCtx(h, &tag);
+				if (st == KSI_ASYNC_STATE_PUSH_CONFIG_RECEIVED && nsvc == 0 && tag && (size_t)tag - 1 < MAXH && held[(size_t)tag - 1] == h) held[(size_t)tag - 1] = NULL;     /* an answered configuration request: ours now, released below */
 				if (st != KSI_ASYNC_STATE_ERROR_NOTICE && st != KSI_ASYNC_STATE_PUSH_CONFIG_RECEIVED && tag && (size_t)tag - 1 < MAXH && held[(size_t)tag - 1] == h) { held[(size_t)tag - 1] = NULL; if (keep && xs_sig[(size_t)tag - 1] == NULL) { KSI_AsyncHandle_free(kept[(size_t)tag - 1]); kept[(size_t)tag - 1] = h; h = NULL; } KSI_AsyncHandle_free(h); xs_free((long)(size_t)tag - 1); h = NULL; }
 				KSI_AsyncHandle_free(h); }
 			else printf(" h=-");
